@@ -246,6 +246,20 @@ where
           break 'handshake;
         }
 
+        // A session spawned while its socket closes (or the context terminates) subscribed to
+        // the bus too late for the event: both set their flag before publishing it.
+        if !self.socket_logic.core().is_running()
+          || self
+            .actor_config
+            .context
+            .inner()
+            .shutdown_initiated
+            .load(Ordering::Acquire)
+        {
+          self.transition_to_shutdown_stream(None).await;
+          break 'handshake;
+        }
+
         // The mailbox is left alone until the handshake is over, but a closing socket or a
         // terminating context must not have to wait for a peer that never answers.
         let read_result = tokio::select! {
